@@ -38,6 +38,8 @@ TAILS = [
     # become %EF%BF%BD): whatever is emitted must still be URL-safe ASCII
     ":alert(1)//\ud800\udc00", "://x/\ud800\udc00", ":\udc00x", ":x\ud83d",
 ]
+# long destinations (size thresholds in fast paths), with characters that need encoding at the far end
+LONG_TAILS = [":image/png;base64," + "A" * 4100 + "\u00e9\"|^`{}", "://x/" + "a" * 5000 + "\u00e9\"<>", ":image/png;base64," + "A" * 4096 + "|"]
 NAMED = {
     ":": "&colon;", "\t": "&Tab;", "\n": "&NewLine;", "/": "&sol;", "(": "&lpar;", ")": "&rpar;", ";": "&semi;", ",": "&comma;",
     "+": "&plus;", "=": "&equals;", "<": "&lt;", ">": "&gt;", "&": "&amp;", " ": "&#32;", " ": "&nbsp;",
@@ -66,6 +68,12 @@ def budget(tier: str) -> dict:
 
 
 def spell(d: gen.D, s: str, form: str) -> tuple[str, bool]:
+    if len(s) > 200:
+        # long destinations: only both ends are respelled (one generated example has a bounded number of choices);
+        # the middle of the long tails needs no escaping in either form
+        a, na = spell(d, s[:40], form)
+        b, nb = spell(d, s[-20:], form)
+        return a + s[40:-20] + b, na or nb
     out = []
     nonraw = False
     for ch in s:
@@ -104,6 +112,13 @@ def _case(draw):
     cfg = gen.maybe_late(d, cfg)
     if d.chance(0.15):
         cfg = gen.config_d(d)
+    if k < 7 and d.chance(0.012):
+        # a long destination written plainly (size thresholds of fast paths), ending in characters that need encoding
+        n = d.pick([4095, 4096, 4097, 4100, 8192, 16384, 16385, 65536])
+        u = d.pick(["data:image/png;base64,", "DATA:image/gif;base64,", "data:image/webp;base64,", "http://x.y/", "data:text/html;base64,", "javascript:"]) + d.pick(["A", "A", "QUJD", "a/"]) * n
+        u = u[: len(u) if d.chance(0.5) else n + 30] + d.pick(["\u00e9", "\"", "|", "^`", "{}", "\u00e9\"|", "%zz", "\u200b"])
+        tpl = d.pick(["![a]({u})", "![a]({u})", "[a]({u})", "![a]({u} \"t\")", "![a](<{u} >)", "[r]: {u}\n\n![x][r]\n", "<{u}>", "![![b]({u})](/v)"])
+        return {"kind": "template", "src": tpl.replace("{u}", u), "cfg": cfg, "sem": u[:40], "nonraw": False, "n": 1, "prior": None}
     if k < 7:
         # one to three constructs in one document (one instance): validators must not carry a verdict
         # from one URL to the next
@@ -114,10 +129,13 @@ def _case(draw):
         for j in range(d.weighted([(6, 1), (3, 2), (1, 3)])):
             kind, tpl = d.pick(TEMPLATES)
             scheme = scheme if (scheme and d.chance(0.4)) else d.pick(SCHEMES)
-            sem = scheme + d.pick(TAILS)
+            long_tail = d.chance(0.01)
+            if long_tail and d.chance(0.5):
+                scheme = "data"
+            sem = scheme + (d.pick(LONG_TAILS) if long_tail else d.pick(TAILS))
             form = d.pick(["bare", "bare", "angle"]) if kind not in ("auto", "linkify") else "auto"
             body, nonraw = spell(d, sem, form)
-            pre = d.pick(PREFIXES)
+            pre = d.pick(PREFIXES) if not (long_tail and d.chance(0.7)) else ""
             suf = d.pick(PREFIXES) if d.chance(0.2) else ""
             raw = pre + body + suf
             if form == "angle":
@@ -132,7 +150,7 @@ def _case(draw):
                 cfg = C.simple("js-default", linkify=True)
         src = "\n\n".join(parts)
         sem = next((x for x in sems if browser_bad(x)), sems[0])
-        return {"kind": "template", "src": src, "cfg": cfg, "sem": sem, "nonraw": anynonraw, "n": len(parts)}
+        return {"kind": "template", "src": src, "cfg": cfg, "sem": sem, "nonraw": anynonraw, "n": len(parts), "prior": d.pick([None, None, None, "validate", "both"])}
     if k == 7 and d.chance(0.5):
         # a rejected inline construct directly followed by something that does resolve: the rejected one must still be
         # there as literal text (not swallowed by whatever follows it)
@@ -198,6 +216,18 @@ def check(case) -> Res:
         res.nt = browser_bad(src) or src.lower().lstrip(_C0_SPACE).startswith("data:image")
         res.cls.append("accepted" if ok else "rejected")
         return res
+    if case.get("prior"):
+        # another instance with permissive hooks (trusted content) handled the same document before: what a stock
+        # instance emits afterwards must not depend on that
+        perm = C.build(cfg)
+        perm.validateLink = lambda url: True  # type: ignore[method-assign]
+        if case["prior"] == "both":
+            perm.normalizeLink = lambda url: url  # type: ignore[method-assign]
+        try:
+            perm.render(src)
+        except Exception:  # noqa: BLE001
+            pass
+        res.cls.append("prior-permissive-instance")
     env: dict = {}
     toks = md.parse(src, env)
     found = 0
